@@ -307,6 +307,28 @@ Definition blocker_check (b : blocker) : verdict :=
      v_exception := match exception_ with Some _ => true | None => false end;
      v_filter := match filter_ with Some _ => true | None => false end |}.
 
+(* check_parameterised with both flags (Engine::check_network_request_subset):
+   [mr] = matched_rule (an earlier engine already matched), [fc] = force_check_exceptions *)
+Definition blocker_check_p (mr fc : bool) (b : blocker) : verdict :=
+  let important_filter := check matches (b_importants b) pr (b_tags b) in
+  let filter_ := match important_filter with
+                 | None => if mr then None
+                           else orelse (check matches (b_tagged b) pr (b_tags b))
+                                       (check matches (b_filters b) pr [])
+                 | Some _ => important_filter
+                 end in
+  let exception_ := match filter_ with
+                    | None => if mr || fc then check matches (b_exceptions b) pr (b_tags b) else None
+                    | Some f => if is_important f then None
+                                else check matches (b_exceptions b) pr (b_tags b)
+                    end in
+  let important := match filter_ with Some f => is_important f | None => false end in
+  {| v_matched := (match exception_ with None => true | Some _ => false end)
+                  && ((match filter_ with Some _ => true | None => false end) || mr);
+     v_important := important;
+     v_exception := match exception_ with Some _ => true | None => false end;
+     v_filter := match filter_ with Some _ => true | None => false end |}.
+
 (* the lists whose every hit matters *)
 Definition redirect_hits (b : blocker) : list rule := check_all matches (b_redirects b) pr [].
 Definition removeparam_hits (b : blocker) : list rule := check_all matches (b_removeparam b) pr [].
@@ -324,6 +346,19 @@ Definition spec_verdict (L : list rule) (tags : list str) : verdict :=
   {| v_matched := imp || (blk && negb exc);
      v_important := imp;
      v_exception := negb imp && blk && exc;
+     v_filter := imp || blk |}.
+(* rule-by-rule reading of the subset query: with matched_rule only important rules can add a
+   blocking match; exceptions are consulted when something blocks un-importantly, or an earlier
+   engine matched, or the caller forces it; "matched" also reports the earlier match *)
+Definition spec_verdict_p (mr fc : bool) (L : list rule) (tags : list str) : verdict :=
+  let imp := existsb (act tags) (of_cat CImportant L) in
+  let blk := negb mr && (existsb (act tags) (tagged_active tags (of_cat CTagged L))
+                         || existsb (act []) (of_cat CNormal L)) in
+  let exc := existsb (act tags) (of_cat CException L) in
+  let excp := negb imp && exc && (blk || mr || fc) in
+  {| v_matched := negb excp && (imp || blk || mr);
+     v_important := imp;
+     v_exception := excp;
      v_filter := imp || blk |}.
 Definition spec_redirect_hits (L : list rule) : list rule :=
   filter (act []) (filter is_redirect (live L)).
